@@ -471,8 +471,11 @@ func CompileRegexp(re *syntax.Regexp, config Config) (*Engine, error) {
 		})
 		literals = extractor.ExtractPrefixes(re)
 
-		// Build prefilter from prefix literals
-		if literals != nil && !literals.IsEmpty() {
+		// Build prefilter from prefix literals. A partial-coverage set (overflow
+		// dropped alternation branches) cannot drive any skipping: neither a
+		// candidate loop nor skip-ahead inside an engine may jump over input in
+		// which an unrepresented branch could match.
+		if literals != nil && !literals.IsEmpty() && !literals.IsPartialCoverage() {
 			builder := prefilter.NewBuilder(literals, nil)
 			pf = builder.Build()
 		}
